@@ -741,6 +741,23 @@ fn directed() -> Vec<(&'static str, usize, Vec<&'static str>)> {
     ]
 }
 
+/// Bounded scope, exhaustively: two replicas in sync, person 1 deleted on replica 0, then every sequence of
+/// three steps from {wait 100 h, wait 169 h, purge_recycled 0, purge_tombstones 0, purge_tombstones 1,
+/// repl 0→1, repl 1→0} (7³ = 343 histories), then the periodic task and the final mesh.
+fn exhaustive() -> Vec<Vec<Step>> {
+    let prefix = ["on 0 create 1", "repl 0 1", "repl 1 0", "on 0 delete 1"];
+    let alpha = ["tick 100", "tick 169", "purger 0", "purget 0", "purget 1", "repl 0 1", "repl 1 0"];
+    let mut out = vec![];
+    for a in alpha {
+        for b in alpha {
+            for c in alpha {
+                out.push(prefix.iter().chain([a, b, c].iter()).map(|t| Step::parse(t)).collect());
+            }
+        }
+    }
+    out
+}
+
 // ---------------------------------------------------------------------------------------------
 // reporting
 // ---------------------------------------------------------------------------------------------
@@ -872,11 +889,21 @@ fn main() {
     }
     let n_two = args.cases(30, 420);
     let n_three = args.cases(14, 200);
+    let exh_all = exhaustive();
+    let exh: Vec<Vec<Step>> = if args.thorough() || args.budget > 1 {
+        exh_all
+    } else {
+        let mut r = Rng::for_case(args.seed, 9_000_000);
+        (0..10).map(|_| exh_all[r.below(exh_all.len() as u64) as usize].clone()).collect()
+    };
+    let n_exh = exh.len() as u64;
+    let exh_ref = &exh;
     let parts: u64 = 4;
     let mut jobs: Vec<(usize, u64, u64)> = vec![];
     for k in 0..parts {
         jobs.push((2, n_two * k / parts, n_two * (k + 1) / parts));
         jobs.push((3, n_three * k / parts, n_three * (k + 1) / parts));
+        jobs.push((0, n_exh * k / parts, n_exh * (k + 1) / parts));
     }
     let results: Vec<Report> = std::thread::scope(|sc| {
         let handles: Vec<_> = jobs
@@ -888,6 +915,10 @@ fn main() {
                     let mut drv = Driver::spawn(&a.driver);
                     let mut reported = BTreeMap::new();
                     for c in *from..*to {
+                        if *n == 0 {
+                            run_case(&mut drv, &mut rep, &mut reported, "exh2", 2, &exh_ref[c as usize], false);
+                            continue;
+                        }
                         let mut r = Rng::for_case(a.seed, (*n as u64) * 1_000_000 + c);
                         // class edits racing deletes are a known finding; most histories leave them out so
                         // that the other oracles are exercised to the end
